@@ -343,8 +343,21 @@ func c13Case(w *fw.W, idx int, r *fw.Rand) {
 		if kind == 1 {
 			open, close = "{% `", "` %}"
 		}
-		src := "`" + strings.Repeat("a"+open, depth) + "1" + strings.Repeat(close+"b", depth) + "`"
-		want := strings.Repeat("a", depth) + "1" + strings.Repeat("b", depth)
+		// what sits at the deepest level: a literal, a variable read, an assignment read back
+		core, coreWant := "1", "1"
+		switch r.Intn(4) {
+		case 1:
+			core, coreWant = "{who}", "W"
+		case 2:
+			core, coreWant = "{% n9 = 5 %}|{n9}", "5|5"
+		case 3:
+			core, coreWant = "{who}{'q'}{who}", "WqW"
+		}
+		src := "who = 'W'; `" + strings.Repeat("a"+open, depth) + core + strings.Repeat(close+"b", depth) + "`"
+		want := strings.Repeat("a", depth) + coreWant + strings.Repeat("b", depth)
+		if core == "1" {
+			src = strings.TrimPrefix(src, "who = 'W'; ")
+		}
 		desc := fmt.Sprintf("nesting depth=%d kind=%d", depth, kind)
 		w.Begin(idx, desc)
 		vm := cfg.NewVM()
